@@ -32,7 +32,7 @@ TRUSTED_BASE = [
     "Python/NumPy semantics of slicing, int arithmetic, dict order as mirrored in the model; generators, "
     "canonicalisation and driver parser of /verif/harness and /verif/lean/Xo/Drv",
     "source tie (theorems XoGen.src_*): checks/pygen.py translates the CURRENT text of _to_slot_size, _align, get_c_strides, "
-    "get_strides, get_offset, bound_check in /repo into Lean on every run (statement by statement; Python int = Int, `&` = "
+    "get_strides, get_offset, bound_check, Chunk.size / overlaps / merge in /repo into Lean on every run (statement by statement; Python int = Int, `&` = "
     "Mathlib's Int.land, list indexing / .index totalised in XoGen/Py.lean) and the kernel re-checks that each equals the "
     "model's definition for all inputs; trusted: that translator (about 250 lines) and the totalised list helpers",
 ]
